@@ -186,15 +186,22 @@ func runResolveCase(c *expCase) []*resObs {
 		case "p", "r":
 			more, kind = [][]string{{"schema", "properties", "nope"}}, "s"
 		case "i":
-			if (c.Rot+i)%2 == 0 {
-				more, kind = [][]string{{"get", "responses", "404"}, {"put", "responses", "200"}}, "r"
-			} else {
-				more, kind = [][]string{{"parameters", "9"}, {"get", "parameters", "3"}}, "p"
+			more, kind = [][]string{{"get", "responses", "404"}, {"get", "responses", "default"}, {"put", "responses", "200"}}, "r"
+			for _, m := range [][]string{{"parameters", "9"}, {"get", "parameters", "3"}} {
+				toks := append(append([]string{}, base...), m...)
+				aims = append(aims, aim{0, "p", spellRef(cc.urls[0], cc.urls[a.Doc], toks, c.Rot+i, c.Spell == "varied")})
 			}
 		}
-		for k, m := range more {
-			if (c.Rot+i+k)%2 == 0 || len(more) == 1 {
-				toks := append(append([]string{}, base...), m...)
+		for _, m := range more {
+			toks := append(append([]string{}, base...), m...)
+			// skip a pointer that happens to exist (e.g. the default response of this very path item)
+			exists := false
+			for k := range c.Nodes {
+				if c.Nodes[k].Doc == a.Doc && strings.Join(cc.paths[k+1], "\x00") == strings.Join(toks, "\x00") {
+					exists = true
+				}
+			}
+			if !exists {
 				aims = append(aims, aim{0, kind, spellRef(cc.urls[0], cc.urls[a.Doc], toks, c.Rot+i, c.Spell == "varied")})
 			}
 		}
